@@ -359,6 +359,20 @@ def pack_union(
                     f"if value.__class__ {packer_arg_type_check}:"
                 ):
                     lines.append(f"return {packer}")
+            elif not spec.builder.is_nailed and all(
+                is_dataclass(get_type_origin(t))
+                for t in packer_arg_types[packer]
+            ):
+                # a codec calls the packer of a particular dataclass,
+                # so it must only be applied to instances of this dataclass
+                with lines.indent(
+                    "if isinstance(value, "
+                    f"({', '.join(packer_arg_type_names)},)):"
+                ):
+                    with lines.indent("try:"):
+                        lines.append(f"return {packer}")
+                    with lines.indent("except Exception:"):
+                        lines.append("pass")
             else:
                 with lines.indent("try:"):
                     lines.append(f"return {packer}")
